@@ -23,7 +23,7 @@ LEVEL = "exploration"
 RUNS = {"quick": 2100, "thorough": 70000}
 REQUIRED_FAULTS = ["F7.simset_permuted_iteration", "F7.real_hashseed_sweep"]
 MACHINES = FORMATS
-SWEEP = {"quick": (42, [0, 1, 77]), "thorough": (1400, [0, 1, 2, 3, 1234, 99999, 424242, 31337])}
+SWEEP = {"quick": (210, [0, 1, 77]), "thorough": (2800, [0, 1, 2, 3, 1234, 99999, 424242, 31337])}
 
 
 def generate(rng, tier, idx, real_set=False):
